@@ -60,12 +60,16 @@ class Obj(object):
 def make_structures():
     return [Kripke(S=[0, 1], R=[(0, 1), (1, 1), (1, 0)], L={0: {'p'}, 1: {'q'}}),
             Kripke(S=[0, 1, 2], S0=[2], R=[(0, 1), (1, 0), (0, 0), (1, 1), (2, 0), (2, 2)],
-                   L={0: {'p', 'fair'}, 1: {'q', '[A(G(p))]'}, 2: {'p', 'q'}}),
+                   L={0: {'p', 'fair'}, 1: {'q', '[A(G(p))]'} | set('[E(X(q))]#%d' % i for i in range(40)) |
+                      set('[A(F([E(X(q))]#%d))]#%d' % (i, i + 1) for i in range(40)) |
+                      set('[E(G(q))]%d' % i for i in range(40)), 2: {'p', 'q'}}),
             Kripke(S=[0], R=[(0, 0)], L={0: {'p'}}),
             # two separate 2-state components with self-loops everywhere: [{0,1}] is met by both,
             # [{0},{1}] by none - fairness lists with equal unions but different fair states
             Kripke(S=[0, 1, 2, 3], R=[(0, 2), (2, 0), (0, 0), (2, 2), (1, 3), (3, 1), (1, 1), (3, 3), (0, 1)],
-                   L={0: {'p'}, 1: {'q'}, 2: {'p', 'q'}, 3: set()}),
+                   L={0: {'p'}, 1: {'q'}, 2: {'p', 'q'},
+                      # labels spelled like numbered fresh atoms for E G q, which is false in state 3
+                      3: set('[E(G(q))]#%d' % i for i in range(80)) | set('[E(G(q))](%d)' % i for i in range(8))}),
             _obj_structure()]
 
 
